@@ -205,6 +205,26 @@ def one_program(rec, M, arch, rng):
             msg = str(exc)
             tight = "tight" if itv_kind.startswith("exact") else itv_kind
             where = "[%s] [%s layout, interval %s]" % (pcl, variant, tight)
+            if isinstance(exc, KeyError) and _frame(exc) == "locationdb.py:set_location_offset" and \
+                    pcl != "several pins in one chain":
+                # which label holds the refused offset?  A label that is not pinned is one that
+                # fix_blocks was about to move in the same pass: a block grew (short branch
+                # became long) by the size of the next block, so the next label lands on the old
+                # offset of the label after it.  Independent of the layout.
+                import re
+                m = re.match(r"['\"]?(\d+) is already associated", msg.strip("'\""))
+                holder = None
+                if m:
+                    try:
+                        holder = res["ldb"].get_offset_location(int(m.group(1)))
+                    except Exception:
+                        holder = None
+                pinned_keys = set(res["ldb"].get_name_location(l) for l in pins)
+                if holder is not None and holder not in pinned_keys:
+                    rec.fail("asm_resolve_final raises KeyError (at locationdb.py:set_location_offset): a "
+                             "label is moved onto the old offset of a label not yet moved",
+                             "%r although a layout exists (%s)" % (exc, witness_note), wit)
+                    return None
             if pcl != "several pins in one chain" and variant == "compact":
                 # conservative size estimates (max_instruction_len per symbolic instruction,
                 # alignment - 1 per block, strict '<' on the gap) and transient label offsets
@@ -224,13 +244,6 @@ def one_program(rec, M, arch, rng):
                              "[compact layout]",
                              "%r although a layout exists (%s)" % (exc, witness_note), wit)
                     return None
-            if pcl == "pin not at the chain head":
-                # one mechanism, many symptoms (KeyError, TypeError, AssertionError, ValueError,
-                # no fixed point ...): the blocks before the pinned one are never placed
-                rec.count("nonhead_symptom:" + type(exc).__name__)
-                rec.fail("asm_resolve_final fails: pinned block not at the head of its chain",
-                         "%s: %r although a layout exists (%s)" % (res["stage"], exc, witness_note), wit)
-                return None
             if isinstance(exc, NoFixedPoint):
                 rec.fail("asmblock_final does not reach a fixed point %s" % where,
                          "%s although a layout exists (%s)" % (exc, witness_note), wit)
